@@ -81,6 +81,9 @@ def frames_of(pr):
 
 
 def run_shard(campaign, shard, nshards, seed, tier):
+    if campaign == 'api':
+        import apiuse
+        return apiuse.run_api('C02', shard, nshards, seed, tier)
     part = Part()
     rng = random.Random('%s/%s/%s' % (seed, campaign, shard))
     quick = tier != 'thorough'
@@ -441,4 +444,6 @@ def run(ctx):
     run_sharded(ctx, 'C02', 'lengths')
     run_sharded(ctx, 'C02', 'huge')
     ctx.exhaustive['payload lengths 1..N for every configuration class'] = True
-    return RULE, ASSUME
+    run_sharded(ctx, 'C02', 'api', nshards=2)
+    import apiuse
+    return RULE + apiuse.rule_text('C02'), ASSUME
